@@ -254,3 +254,72 @@ func H_C11_mapkey_order() {
 	verifAssert(!(l01 && l10), "less-asymmetric")
 	verifAssert((l01 || l10) == !bytes.Equal(ka, kb), "less-total-on-distinct")
 }
+
+// a reader that hands out its bytes in arbitrary pieces, as a network connection or a part-set
+// reader does: Read returns between 1 and len(p) of the remaining bytes, chosen by the solver
+type c11ChunkReader struct {
+	b   []byte
+	pos int
+}
+
+func (r *c11ChunkReader) Read(p []byte) (int, error) {
+	rem := len(r.b) - r.pos
+	if rem == 0 {
+		return 0, io.EOF
+	}
+	if len(p) == 0 {
+		return 0, nil
+	}
+	max := len(p)
+	if rem < max {
+		max = rem
+	}
+	n := 1 + verifCase(max)
+	copy(p, r.b[r.pos:r.pos+n])
+	r.pos += n
+	return n, nil
+}
+
+func (r *c11ChunkReader) ReadByte() (byte, error) {
+	if r.pos == len(r.b) {
+		return 0, io.EOF
+	}
+	c := r.b[r.pos]
+	r.pos++
+	return c, nil
+}
+
+// What a Stream decodes does not depend on how the input arrives: the same bytes read from a byte
+// slice in one piece and from a reader that delivers them in arbitrary short reads give the same
+// values and the same accept/reject decision.
+//verif:opt unwind=16 budget_s=600 split=8
+func H_C11_stream_result_independent_of_chunking() {
+	n := 1 + verifCase(6)
+	b := verifNondetBytes(n)
+	whole := NewStream(bytes.NewReader(b), 0)
+	pieces := NewStream(&c11ChunkReader{b: append([]byte(nil), b...)}, uint64(n))
+	switch verifCase(3) {
+	case 0:
+		x1, e1 := whole.Bytes()
+		x2, e2 := pieces.Bytes()
+		verifAssert((e1 == nil) == (e2 == nil), "bytes-accepted-alike")
+		if e1 == nil && e2 == nil {
+			verifAssert(bytes.Equal(x1, x2), "bytes-equal")
+		}
+	case 1:
+		x1, e1 := whole.Raw()
+		x2, e2 := pieces.Raw()
+		verifAssert((e1 == nil) == (e2 == nil), "raw-accepted-alike")
+		if e1 == nil && e2 == nil {
+			verifAssert(bytes.Equal(x1, x2), "raw-equal")
+		}
+	case 2:
+		x1, e1 := whole.Uint()
+		x2, e2 := pieces.Uint()
+		verifAssert((e1 == nil) == (e2 == nil), "uint-accepted-alike")
+		if e1 == nil && e2 == nil {
+			verifAssert(x1 == x2, "uint-equal")
+		}
+	}
+	verifReach("compared")
+}
